@@ -79,6 +79,13 @@ func (c *Ctx) Distinct(key string) {
 	c.seen[key] = struct{}{}
 }
 
+// Begin notes the recipe about to be executed (outside the scratch area): if the implementation takes the whole
+// process down (fatal runtime error, out of memory — nothing recover() can catch), bin/check names this recipe as the
+// failing input.
+func (c *Ctx) Begin(op string) {
+	os.WriteFile(filepath.Join(c.OutDir, "current_op.txt"), []byte(op), 0644)
+}
+
 // PropFail records a failure of the property oracle itself.
 func (c *Ctx) PropFail(class, desc, op string) {
 	desc = strings.NewReplacer("\t", "\\t", "\n", "\\n").Replace(desc)
